@@ -73,6 +73,13 @@ pub fn families(a: &Args, rng: &mut Rng) -> Vec<Fam> {
     v
 }
 
+/// terms with more derivatives than this are left out of the drivers that compile or search them
+/// without a bound (a random term can have astronomically many derivatives)
+pub const DERIV_LIMIT: usize = 1500;
+pub fn few_derivatives(m: &mut ReManager, e: RegLan) -> bool {
+    m.iter_derivatives(e).take(DERIV_LIMIT + 1).count() <= DERIV_LIMIT
+}
+
 fn words_for(t: &T, rng: &mut Rng, maxlen: usize, extra_random: usize) -> Vec<Vec<u32>> {
     let mut ends = vec![];
     t.ends(&mut ends);
@@ -249,6 +256,9 @@ pub fn drive_c02(a: &Args) {
         let use_try = id % 3 == 1;
         let r = guarded(|| {
             let e = f.t.build(&mut mgr);
+            if !few_derivatives(&mut mgr, e) {
+                return None;
+            }
             let aut = if use_try {
                 // the bound is the number of derivatives, so that the Some branch is exercised
                 let n = mgr.iter_derivatives(e).take(NODE_CAP).count();
@@ -492,6 +502,9 @@ pub fn drive_c05(a: &Args) {
         }
         let r = guarded(|| {
             let e = f.t.build(&mut mgr);
+            if !few_derivatives(&mut mgr, e) {
+                return None;
+            }
             let order_first = id % 2 == 0;
             // both orders of the two queries (cache effects)
             let (empty, w) = if order_first {
@@ -501,7 +514,7 @@ pub fn drive_c05(a: &Args) {
                 let w = mgr.get_string(e);
                 (mgr.is_empty_re(e), w)
             };
-            match w {
+            Some(match w {
                 None => (empty, false, vec![], false, false, true, e.is_empty()),
                 Some(s) => {
                     let inre = mgr.str_in_re(&s, e);
@@ -509,10 +522,11 @@ pub fn drive_c05(a: &Args) {
                     let v: Vec<u32> = s.iter().cloned().collect();
                     (empty, true, v, inre, acc, s.is_good(), e.is_empty())
                 }
-            }
+            })
         });
         match r {
-            Ok((empty, has_w, w, inre, acc, good, syn_empty)) => {
+            Ok(None) => {}
+            Ok(Some((empty, has_w, w, inre, acc, good, syn_empty))) => {
                 let mut m = base_case(id, f, &f.t);
                 m.insert("op".into(), json!("empty"));
                 m.insert("exact".into(), json!(explore_ok(&f.t)));
@@ -558,6 +572,9 @@ pub fn drive_c18(a: &Args) {
         f.t.ends(&mut ends);
         let r = guarded(|| {
             let e = f.t.build(&mut mgr);
+            if !few_derivatives(&mut mgr, e) {
+                return None;
+            }
             let rs = ranges_of(e.char_ranges());
             let mut pts: BTreeSet<u32> = ends.iter().cloned().filter(|&x| x <= MAX_CHAR).collect();
             pts.insert(0);
@@ -593,10 +610,11 @@ pub fn drive_c18(a: &Args) {
             if id % 2 == 1 {
                 do_classes(&mut mgr, &mut classes);
             }
-            (rs, chars, res, classes)
+            Some((rs, chars, res, classes))
         });
         match r {
-            Ok((rs, chars, res, classes)) => {
+            Ok(None) => {}
+            Ok(Some((rs, chars, res, classes))) => {
                 let mut m = base_case(id, f, &f.t);
                 m.insert("op".into(), json!("start"));
                 let rj: Vec<Value> = rs.iter().map(|&(x, y)| json!([x, y])).collect();
@@ -654,7 +672,11 @@ pub fn drive_c19(a: &Args) {
             distinct.dedup();
             let mut tries = vec![];
             let bounds: Vec<(&str, usize)> = vec![("0", 0), ("L-1", n.saturating_sub(1)), ("L", n), ("L+1", n + 1), ("max", usize::MAX)];
+            let capped = n > ITER_CAP;
             for (name, b) in bounds {
+                if capped && name != "0" {
+                    continue; // an unbounded compile of a term this large is not attempted
+                }
                 let x = guarded(|| mgr.try_compile(e, b).map(|a| a.num_states()));
                 tries.push(match x {
                     Ok(Some(ns)) => json!({"n": name, "res": "some", "ns": ns}),
@@ -662,18 +684,20 @@ pub fn drive_c19(a: &Args) {
                     Err(_) => json!({"n": name, "res": "panic", "ns": 0}),
                 });
             }
-            let cns = mgr.compile(e).num_states();
+            let cns = if capped { 0 } else { mgr.compile(e).num_states() };
             (l1 == l2, n, distinct.len(), l1.first().cloned() == Some(addr(e)), g, tries, cns)
         });
         match r {
             Ok((stable, n, ndistinct, first_root, g, tries, cns)) => {
                 let mut m = base_case(id, f, &f.t);
-                m.insert("op".into(), json!(if g.nodes.is_empty() { "closure_big" } else { "closure" }));
+                m.insert("op".into(), json!(if n > ITER_CAP { "closure_capped" } else if g.nodes.is_empty() { "closure_big" } else { "closure" }));
                 m.insert("stable".into(), json!(stable));
                 m.insert("len".into(), json!(n));
                 m.insert("distinct".into(), json!(ndistinct));
                 m.insert("first_is_root".into(), json!(first_root));
-                m.insert("terminated".into(), json!(n <= ITER_CAP));
+                // reaching the cap on a seeded random term proves nothing (such a term may legitimately have
+                // that many derivatives); on the enumerated families it means the enumeration does not terminate
+                m.insert("terminated".into(), json!(n <= ITER_CAP || f.fam == "random"));
                 m.insert("niter".into(), json!(g.n_iter));
                 m.insert("nnodes".into(), json!(g.nodes.len()));
                 m.insert("nreps".into(), json!(g.reps.len()));
